@@ -105,6 +105,17 @@ def _param_leaves(t: Term, fi: FuncInfo) -> set[str]:
     return {x[1] for x in leaves(t, ("param",)) if x[1] in fi.param_names}
 
 
+def _strip_abs_deep(l: Term) -> Term:
+    """Location without abspath / resolve steps (a module's __file__ is an absolute path already)."""
+    if l[0] == "ABS":
+        return _strip_abs_deep(l[1])
+    if l[0] in ("PARENT", "NOSUF"):
+        return (l[0], _strip_abs_deep(l[1]))
+    if l[0] == "REL":
+        return ("REL", _strip_abs_deep(l[1]), _strip_abs_deep(l[2]))
+    return l
+
+
 def _canon_text(t: Term) -> str:
     """Text of a term with location wrappers removed, the guards of choices dropped and symbol numbers erased (for comparing two
     executions of different functions)."""
@@ -154,7 +165,7 @@ def rule_r1(repo: Repo, res: Result) -> None:
                 if i < 2:
                     src = gm.param_names[i] if i < len(gm.param_names) else "?"
                     want = ("PARENT", ("attr", ("param", src), "__file__"))
-                    got = loc(a) if a is not None else None
+                    got = _strip_abs_deep(loc(a)) if a is not None else None
                     ok = got == want
                     res.add("C04.R1", f"{tag}::{pname} <- dirname({src}.__file__){suffix}", ok, f"{pname} = directory of {src}" if ok else f"`{pname}` receives `{show_loc(got) if got is not None else 'nothing'}` instead of the directory of {src}.__file__", where(call.fi, call.node), kind="flow")
                 else:
@@ -635,14 +646,41 @@ def rule_r4(repo: Repo, res: Result) -> None:
             res.undecide("C04.R4", repo.key(e.fi, stmt_of(e.node)) + f" [{e.name}]", "bulk graph construction is not analysed", where(e.fi, e.node))
 
     def unconditional(e: Event) -> tuple[bool, str]:
+        """The node / edge is created whenever the graph does not contain it yet (edges: and contains both ends)."""
         f = f_and(e.pc)
         free = _graph_state_atoms(sx, f, graph, config, tuple(e.args[:2]) if e.name == "add_edge" else ())
         if any(l.early_exit for l in e.loops):
             l = next(l for l in e.loops if l.early_exit)
             return False, f"the enclosing loop `{norm(l.node, 60).split(':')[0]}` can be left early (break / return)"
-        if _holds_whenever_state_allows(f, free):
+        # the state in which the creation matters: the node is absent / both ends are present, differ, and are not linked yet
+        fixed: dict[str, bool] = {}
+        ends = tuple(e.args[:2]) if e.name == "add_edge" else tuple(e.args[:1])
+        end_sources = [names.sources(x) for x in ends]
+
+        def is_end(x: Term) -> bool:
+            # the same name, depth-limited or not
+            return x in ends or (names.sources(x) in end_sources and bool(names.sources(x)))
+
+        for key in free:
+            t = sx.atoms.get(key)
+            if t is None:
+                continue
+            if t[0] == "cmp" and t[1] == "in" and t[3][:2] == graph[:2] and is_end(t[2]):
+                fixed[key] = e.name == "add_edge"
+            elif t[0] == "mcall" and t[1][:2] == graph[:2] and t[2] == "has_node" and len(t[3]) == 1 and is_end(t[3][0]):
+                fixed[key] = e.name == "add_edge"
+            elif t[0] == "mcall" and t[1][:2] == graph[:2] and t[2] == "has_edge" and tuple(t[3]) == ends:
+                fixed[key] = False
+            elif t[0] == "cmp" and t[1] == "is" and is_const(t[3], None) and t[2][0] == "mcall" and t[2][1][:2] == graph[:2] and t[2][2] == "get_edge_data" and tuple(t[2][3]) == ends:
+                fixed[key] = True
+            elif t[0] == "cmp" and t[1] == "==" and e.name == "add_edge" and {t[2], t[3]} == set(ends):
+                fixed[key] = False
+        f2 = simplify(substitute(f, fixed)) if fixed else f
+        if _holds_whenever_state_allows(f2, free - set(fixed)):
             return True, ""
-        extra = sorted(a for a in atoms_of(f) if a not in free)
+        extra = sorted(a for a in atoms_of(f2) if a not in free)
+        if not extra:
+            return False, f"it does not happen for a {'module that is not a node yet' if e.name == 'add_node' else 'pair of existing, not yet linked nodes'} (condition: `{show_formula(f2)[:160]}`)"
         return False, f"it additionally depends on `{' , '.join(extra)[:200]}`"
 
     # ---- no node from imported names (every node creation)
@@ -950,6 +988,9 @@ def rule_r5(repo: Repo, res: Result) -> None:
         e = calls[0]
         b = _bind_args(convert, e)
         prefix = b.get(cp[1])
+        internal = b.get(cp[2])
+        ok_i = internal is not None and any(x[0] == "mcall" and x[2] == "parse" for x in subterms(internal))
+        res.add("C04.R5", f"{tag}::internal modules <- scan result", ok_i, "the set of internal modules handed to the import conversion is computed from the scanned modules" if ok_i else f"the internal-module set of the import conversion is `{show(internal, 80) if internal is not None else '?'}`: not computed from the scanned modules, so no prefixed name can ever be recognised", where(e.fi, e.node), kind="flow")
         M, R = ("param", "module_path"), ("param", "root_path")
         rel_mr = ("REL", M, R)
         want = [("parts", ("REL", ("PARENT", M), ("PARENT", R)))]
@@ -1028,7 +1069,12 @@ def rule_r5(repo: Repo, res: Result) -> None:
             k2 += 1
             bad = [a for a in e.args if P in leaves(a, ("param",))]
             res.add("C04.R5", key + " [relative importee not adjusted]", not bad, "relative imports are resolved against the importer only" if not bad else "a relative import receives a root-prefix-adjusted name", where(e.fi, e.node), kind="flow")
-    res.floor("C04.R5.imports", 3, k2)
+    # vacuity: both kinds of import objects must have been seen (their number depends on how the branches are written)
+    kinds = {e.func[1].rsplit(".", 1)[-1] for e in tr2.events if e.kind == "call" and e.func[0] == "cls"}
+    for cname in ("AbsoluteImport", "RelativeImport"):
+        if cname not in kinds:
+            res.undecide("C04.R5", f"{convert.relpath}::{convert.qualname}::{cname}", f"no {cname} is constructed on any path of the conversion", where(convert, convert.node))
+    res.floor("C04.R5.imports", 2, k2)
 
 
 def _check_adjusted(sx: SymX, name: Term, P: Term, I: Term, guard: Formula = TRUE):
